@@ -1,6 +1,6 @@
 (* Props/C15.v — hybrid: evicted entries reach the secondary tier; memory stays bounded *)
 From Coq Require Import ZArith List Bool.
-From Verif Require Import Base.Word64 Model.Expiry Model.Store Proof.StoreMap Proof.HybridP.
+From Verif Require Import Base.Word64 Model.Expiry Model.Store Proof.StoreMap Proof.HybridP Proof.DirtyP.
 Import ListNotations.
 Open Scope Z_scope.
 
@@ -25,6 +25,22 @@ Theorem c15_overwrite_marks_dirty : forall s k v cost expire now h dk id e,
              f_dirty e' = true /\ sval e' = v /\ sweight e' = cost.
 Proof. exact overwrite_marks_dirty. Qed.
 Print Assumptions c15_overwrite_marks_dirty.
+
+(* no step of any hybrid history (API calls, any delivery of events, ticks, worker steps) clears the
+   mark of an existing entry object *)
+Theorem c15_dirty_stays : forall ops s L, hyb s = true -> forallb hop_ok ops = true -> HInv s L ->
+  dirty_kept s (fst (hrun s L ops)).
+Proof. exact hrun_dk. Qed.
+Print Assumptions c15_dirty_stays.
+
+(* hence an entry overwritten at some point is handed to the worker whenever it is evicted later *)
+Theorem c15_overwritten_then_evicted : forall ops s L id e now, hyb s = true -> forallb hop_ok ops = true -> HInv s L ->
+  get_ent s id = Some e -> f_dirty e = true ->
+  let s' := fst (hrun s L ops) in
+  Z.of_nat (length (hand s')) < 256 ->
+  hand (fst (removeEntry s' id reasonEVICTED now)) = hand s' ++ [id] /\ snd (removeEntry s' id reasonEVICTED now) = [].
+Proof. exact overwritten_then_evicted. Qed.
+Print Assumptions c15_overwritten_then_evicted.
 
 (* the worker writes the entry's current value, cost and deadline (with or without TTL) to the
    secondary tier before it disappears from memory; if the secondary Set fails the error handler is
